@@ -576,6 +576,11 @@ var _ = late(func() {
 			if !okLive && len(di.calls) == 0 && snapshotCounterEvidence(c, next, guardsOf(b), dP) {
 				okLive = true
 			}
+			// ... or any other evidence that the deque holds items at the read (n < d.Len() for a count n that starts at 0 and
+			// only goes up - an iterator that counts items instead of walking positions)
+			if !okLive && len(di.calls) == 0 && dequeNonEmptyProv(c, ia.Parent(), b, idxIn(ia), dP, 0) {
+				okLive = true
+			}
 			r.ok(okLive, "deque.dequeIterator.Next|reads-live-slot#"+itoa(n), ia.Pos(), "a slot of the ring buffer is read without a dominating test that the deque holds items (Len() != 0): a drained deque keeps its buffer, so the iterator yields zeroed slots and never reaches its end")
 		}
 		if n == 0 {
